@@ -8,6 +8,7 @@ import (
 	"encoding/binary"
 	"fmt"
 	"os"
+	"strings"
 	"sync"
 
 	"github.com/cossacklabs/acra/acrablock"
@@ -482,6 +483,22 @@ func Run(r *ev.Run) {
 				k.class = fmt.Sprintf("poison(kind=%s,key=%s,len=%d)/%s", rec.kind, keyClass(k.keyAge), rec.length, k.placement)
 				batch = append(batch, k)
 			}
+			// informational: the inner envelope of a poison record without its container (the format older generators wrote).
+			// poison.Create* never produce it, so nothing is demanded; what happens is counted.
+			for i := 0; i < 12*mult; i++ {
+				rec := st.pool[rng.Intn(len(st.pool))]
+				k := kase{positive: true, judged: false, st: st, stIdx: si, epoch: epoch, kind: rec.kind, keyAge: st.keyAge(rec), placement: "raw-inner-envelope"}
+				if i%2 == 0 {
+					k.tgt = cols[rng.Intn(len(cols))]
+				} else {
+					k.tgt = trs[rng.Intn(2)]
+				}
+				k.input = append([]byte{}, rec.data[12:]...)
+				k.hash = append([]byte{0x7f}, gen.Bytes(rng, 32)...)
+				k.reader, k.note = readerID, "reader-with-keys"
+				k.class = fmt.Sprintf("poison-inner-envelope-without-container(kind=%s,key=%s)", rec.kind, keyClass(k.keyAge))
+				batch = append(batch, k)
+			}
 			for i := 0; i < negPerBatch; i++ {
 				k := kase{st: st, stIdx: si, epoch: epoch}
 				if i%5 < 3 {
@@ -490,6 +507,11 @@ func Run(r *ev.Run) {
 					k.tgt = trs[rng.Intn(len(trs))]
 				}
 				k.input, k.class, k.judged = st.negative(rng, negativeClasses[rng.Intn(len(negativeClasses))])
+				if k.tgt.masked && strings.HasPrefix(k.class, "lookalike:c-header") {
+					// container look-alike headers read through a MASKED column are C11's hostile class: on a tree without the repair
+					// fixes/c11-masking-only-masks-real-envelopes.diff such a call may never return, and C11 runs them in an isolated child
+					k.tgt = cols[rng.Intn(5)]
+				}
 				k.hash = append([]byte{0x7f}, gen.Bytes(rng, 32)...)
 				rd := readers[rng.Intn(len(readers))]
 				k.reader, k.note = rd.id, rd.n
@@ -582,6 +604,20 @@ func runCase(r *ev.Run, we *wenv, k kase) {
 		r.Count("silent:"+k.tgt.group, 1)
 		r.Distinct(fmt.Sprintf("neg|%s|%s|%s", k.st.name, k.tgt.group, k.class))
 		r.SampleN("neg:"+k.tgt.group, 2, map[string]interface{}{"case": "negative", "keystore": k.st.name, "entry_point": k.tgt.name, "class": k.class, "input": ev.Hex(k.input), "callbacks": 0, "delivery_seq": res.DeliverySeq, "delivered_digest": digest(res.Out)})
+		return
+	}
+	if k.judged && k.tgt.group == "translator" && strings.Contains(k.tgt.name, "Searchable(data)") && len(k.input) >= 33 && k.input[0] == 0x7f && k.offset < 33 {
+		// the searchable operations define their input as hash(33 bytes, first byte 0x7f) ‖ envelope: a record that starts inside
+		// what is by definition the hash field is not an input these operations have (oracle correction, see notes)
+		r.Count("not_demanded:record_overlaps_the_search_hash_field_of_a_searchable_operation", 1)
+		return
+	}
+	if !k.judged {
+		if len(res.Events) > 0 {
+			r.Count("not_demanded:raw_inner_envelope_alarm_raised:"+k.tgt.group, 1)
+		} else {
+			r.Count("not_demanded:raw_inner_envelope_no_alarm:"+k.tgt.group, 1)
+		}
 		return
 	}
 	r.Count("positive_cases", 1)
